@@ -19,12 +19,16 @@ Step ==
      \/ Ev.ev = "detach" /\ Detach(Ev.p)
      \/ Ev.ev = "interest" /\ RecvInterest(Ev.n, Ev.life, Ev.h, Ev.rid)
      \/ Ev.ev = "reply" /\ (IF Ev.rid \in DOMAIN inq THEN Reply(Ev.rid, Ev.sent) ELSE (UNCHANGED <<now, pend, ptrie, handlers, inq>> /\ ev' = [ev |-> "x", fired |-> <<>>]))
+     \/ Ev.ev = "hammer" /\ UNCHANGED <<now, pend, ptrie, handlers, inq>> /\ ev' = [ev |-> "hammer", fired |-> <<>>]
      \/ Ev.ev = "P" /\ UNCHANGED <<now, pend, ptrie, handlers, inq>> /\ ev' = [ev |-> "P", fired |-> <<>>]
 TSpec == TInit /\ [][Step]_tvars
 HiWater == TLCSet(7, IF TLCGet(7) < hi THEN hi ELSE TLCGet(7))
 Accepted == PrintT(<<"hiwater", TLCGet(7), Len(Trace)>>) /\ TLCGet(7) = Len(Trace)
 \* callbacks are only ever invoked for Interests that were expressed (and only by data / nack / time steps)
 T_C20known == [][l <= Len(Trace) /\ Ev.ev \notin {"Reset", "P"} => \A x \in 1..Len(Ev.fired) : Ev.fired[x].id \in DOMAIN pend]_tvars
+\* the free-running hammer (goroutines expressing, feeding, attaching at once): at quiescence every expressed Interest was
+\* resolved exactly once and only by Data that satisfies it
+T_C20hammer == [][(l <= Len(Trace) /\ Ev.ev = "hammer") => (Ev.expressed > 0 /\ Ev.never = 0 /\ Ev.twice = 0 /\ Ev.wrong = 0)]_tvars
 T_nopanic == [][~(l <= Len(Trace) /\ Ev.ev = "P")]_tvars
 \* an Interest the engine handed to a handler got a Reply closure
 T_C20rid == [][(l <= Len(Trace) /\ Ev.ev = "interest") => ((Ev.h = -1) <=> (Ev.rid = -1))]_tvars
